@@ -5,7 +5,7 @@ import os
 from ..flow import Flow
 
 _SRC = os.path.join(os.path.dirname(os.path.dirname(os.path.abspath(__file__))), "pysem_src.py")
-NAMES = [n.name for n in ast.parse(open(_SRC).read()).body if isinstance(n, ast.FunctionDef)]
+NAMES = [n.name for n in ast.parse(open(_SRC).read()).body if isinstance(n, ast.FunctionDef)]   # module-level functions only (not the methods of the helper classes)
 KERNELS = []
 FLOWS = [Flow("k_flow_pysem_" + n, _SRC, n, props=()) for n in NAMES]
 FLOW_INDEX = "pysem_flows"
